@@ -613,6 +613,14 @@ var recursionProgs = []string{
 	"function f(){return ({}).hasOwnProperty({toString:f})};f()",
 	"function f(){return Function.prototype.toString.call(f)+f()};f()",
 	"var d=0;function f(){if(d++<1e9)try{f()}catch(e){throw e}};f()",
+	// cycles that run through built-ins only (no script function on the path)
+	"var x={};x.toString=Function.prototype.call.bind(String,null,x);String(x)",
+	"var x={};x.valueOf=Function.prototype.call.bind(Number,null,x);Number(x)",
+	"var a=[];a[0]=a;a.toString=Function.prototype.call.bind(Array.prototype.join,a);String(a)",
+	"var x={};x.toJSON=Function.prototype.call.bind(JSON.stringify,null,x);JSON.stringify(x)",
+	"var x={};x.toString=Function.prototype.apply.bind(String,null,[x]);''+x",
+	"var c=Function.prototype.call,b=c.bind(c);for(var i=0;i<300;i++)b=c.bind(c,b);b()",
+	"var x={};Object.defineProperty(x,'p',{get:Function.prototype.call.bind(Object.getOwnPropertyDescriptor(x.__proto__||Object.prototype,'toString')&&String,null,x)});x.toString=function(){return x.p};String(x)",
 }
 
 func execRecursion(c *FSCase, st *Stats) (*Violation, interface{}, bool) {
